@@ -191,6 +191,65 @@ func runC10Child(res *lib.Result, tier string, seed int64, args []string) error 
 		res.Dist("multi-edited-files")
 		sess.Close()
 	}
+	// answers that must not share state: the same kind of request several times at once, alternating between two
+	// positions whose answers differ (two long member lists): every answer must be the sequential answer of ITS
+	// position (an answer built in a buffer shared between requests is still being encoded when the next handler
+	// refills it)
+	{
+		var sb strings.Builder
+		sb.WriteString("BIGT = {}\nOTHT = {}\n")
+		for i := 0; i < 150; i++ {
+			fmt.Fprintf(&sb, "BIGT.alpha%03d = %d\nOTHT.beta%03d = %d\n", i, i, i, i)
+		}
+		pre := sb.String()
+		text := pre + "local ca = BIGT.\nlocal cb = OTHT.\n"
+		nl := strings.Count(pre, "\n")
+		pairRounds := 6
+		if tier == "thorough" {
+			pairRounds = 60
+		}
+		for k := 0; k < pairRounds; k++ {
+			sess, err := lib.StartSession(dir, lib.AllChecksOptions())
+			if err != nil {
+				return err
+			}
+			sess.Timeout = 30 * time.Second
+			sess.DidOpen("main.lua", text)
+			sess.Sync()
+			par := func(line, ch int) interface{} {
+				return map[string]interface{}{"textDocument": map[string]interface{}{"uri": sess.URI("main.lua")},
+					"position": map[string]interface{}{"line": line, "character": ch}, "context": map[string]interface{}{"triggerKind": 2, "triggerCharacter": "."}}
+			}
+			pa, pb := par(nl, len("local ca = BIGT.")), par(nl+1, len("local cb = OTHT."))
+			seqA := canon(sess.Call("textDocument/completion", pa))
+			seqB := canon(sess.Call("textDocument/completion", pb))
+			lib.Breadcrumb("C10 eight member completions at two positions in flight at once")
+			var waits []func() (json.RawMessage, error)
+			for j := 0; j < 8; j++ {
+				if j%2 == 0 {
+					waits = append(waits, sess.CallAsync("textDocument/completion", pa))
+				} else {
+					waits = append(waits, sess.CallAsync("textDocument/completion", pb))
+				}
+			}
+			for j, w := range waits {
+				got := canon(w())
+				want := seqA
+				if j%2 == 1 {
+					want = seqB
+				}
+				res.Count(fmt.Sprintf("pair-%d-%d", k, j), true)
+				res.Dist("completion-pairs")
+				if got != want {
+					fmt.Printf("NONSERIAL %s\n", mustJSON(map[string]string{"method": "textDocument/completion (two positions in flight)", "got": lib.Trunc(got, 300), "before": lib.Trunc(want, 300), "after": lib.Trunc(want, 300), "round": fmt.Sprintf("pair %d", k)}))
+				}
+			}
+			if !strings.Contains(seqA, "alpha149") || !strings.Contains(seqB, "beta149") {
+				return fmt.Errorf("C10 completion-pair scenario: the sequential completions do not list the members (%s)", lib.Trunc(seqA, 200))
+			}
+			sess.Close()
+		}
+	}
 	for round := 0; round < rounds; round++ {
 		r := root.Fork(uint64(round))
 		sess, err := lib.StartSession(dir, lib.AllChecksOptions())
